@@ -35,6 +35,20 @@ func init() {
 				return nil, nil, nil, err
 			}
 			cov["on_disk_pass"] = map[string]interface{}{"states": disk.States, "transitions": disk.Transitions, "depth_completed": disk.DepthDone, "exhaustive": disk.Exhaustive}
+			// large transactions: thousands of operations in one write transaction (beyond any
+			// internal batch or buffer threshold) must be just as atomic, isolated and readable
+			bulkN := map[bool][]int{false: {5000}, true: {5000, 70000}}[c.Tier == "thorough"]
+			var bulkCov []interface{}
+			for _, n := range bulkN {
+				bo := map[string]interface{}{"max_tx": 2, "max_ops": 3, "bulk": n}
+				bk, err := runBFS(c.Bin, c.Scratch, bfsCfg{Model: "c11", Opts: bo, Depth: 6, Workers: c.Workers, Deadline: dl, Recycle: 50, OpenTags: openTags(c)})
+				if err != nil {
+					return nil, nil, nil, err
+				}
+				bulkCov = append(bulkCov, map[string]interface{}{"keys_per_bulk_operation": n, "states": bk.States, "transitions": bk.Transitions, "depth_completed": bk.DepthDone, "exhaustive": bk.Exhaustive, "per_event_transitions": bk.PerEvent})
+				disk.Violations = append(disk.Violations, bk.Violations...)
+			}
+			cov["large_transaction_pass"] = bulkCov
 			return cov, []string{
 				"iteration order of uncommitted data inside a dirty write transaction is observed (info.dirty_iteration_differs_from_merged_view) but not required: C11 specifies iteration for committed entries",
 				"goleveldb trusted; the large pass runs over goleveldb's in-memory storage (reopen = close + recover from the same storage), the small pass over the real directory-backed CreateDB/OpenDB",
